@@ -7,6 +7,7 @@ import (
 	"strings"
 	"sync"
 	"testing"
+	"time"
 )
 
 // Violation is one breach of a property found in one run.
@@ -153,8 +154,10 @@ func Minimise(t *testing.T, p Prop, seed uint64, lanes map[string][]uint32, tier
 	execs := 0
 	cur := cloneLanes(lanes)
 	var curOut *Outcome
+	deadline := time.Now().Add(20 * time.Second) // bounds the cost of shrinking slow runs; the result is replay-verified anyway
 	try := func(c map[string][]uint32) bool {
-		if execs >= budget {
+		if execs >= budget || time.Now().After(deadline) {
+			execs = budget
 			return false
 		}
 		execs++
